@@ -24,6 +24,21 @@ Theorem C07_src_find_mapping_name_is_model_find_mapping :
   forall (keys : list string) (target : string), src_find_mapping_name keys target = find_mapping_keys keys target.
 Proof. exact @src_find_mapping_name_is_find_mapping_keys. Qed.
 
+Theorem C07_src_bound_names_are_model_bound_names :
+  forall (Pay Ent : Type) (c : component Ent Pay),
+    src_get_bound_names Ent (c_default c) (src_adapter_binds (c_binds c)) = bound_names Ent Pay c.
+Proof. exact @src_bound_names_is_bound_names. Qed.
+
+Theorem C07_src_get_state_is_model_get_state :
+  forall (Pay Ent : Type) (c : component Ent Pay) (st : store Ent),
+    src_get_state Ent (comp_addr Ent Pay c) (c_default c) (src_adapter_binds (c_binds c)) st = get_state Ent Pay c st.
+Proof. exact @src_get_state_is_get_state. Qed.
+
+Theorem C07_src_set_state_is_model_set_state :
+  forall (Pay Ent : Type) (c : component Ent Pay) (st : store Ent) (out : list (string * Ent)),
+    src_set_state Ent (comp_addr Ent Pay c) (c_default c) (src_adapter_binds (c_binds c)) out st = set_state Ent Pay c st out.
+Proof. exact @src_set_state_is_set_state. Qed.
+
 Theorem C07_src_message_signature_is_model_msig :
   forall name method : string, src_message_signature name method = msig name method.
 Proof. exact @src_message_signature_is_msig. Qed.
@@ -40,6 +55,9 @@ Print Assumptions C07_src_regularize_is_model_regularize.
 Print Assumptions C07_src_tag_events_is_model_tag_events.
 Print Assumptions C07_src_rejected_answer_gets_no_accept.
 Print Assumptions C07_src_find_mapping_name_is_model_find_mapping.
+Print Assumptions C07_src_bound_names_are_model_bound_names.
+Print Assumptions C07_src_get_state_is_model_get_state.
+Print Assumptions C07_src_set_state_is_model_set_state.
 Print Assumptions C07_src_message_signature_is_model_msig.
 Print Assumptions C07_src_resolve_address_is_model_resolve.
 Print Assumptions C07_src_local_is_model_local_addr.
